@@ -10,9 +10,9 @@ CLAIMS = {
         'model_checking',
         'TLC enumerates every query vector of the bounded domain of spec/QueryFilter.tla (filter sequences over 20 filter kinds: '
         'node-name lists with/without the node and near-miss names, tag patterns from the regex AST of spec/Regex.tla with and without '
-        'anchors against every tag value over {a,b,c} up to length 3 incl. missing and empty tags, invalid patterns, undecodable filters, '
+        'anchors (quick: all 108 depth-1 patterns x every value over {a,b,c} up to length 3; thorough: all 6060 depth-2 patterns x values up to length 2) incl. missing and empty tags, invalid patterns, undecodable filters, '
         'unknown filter types; ack and no-broadcast flags; names with/without the _serf_ prefix and near misses; first sight, exact '
-        'repeat, same time/other id, other time/same id) with the expected (delivered, acked, re-broadcast) computed by the TLA+ '
+        'repeat, same time/other id, other time/same id, and every delivery history of length 3 (thorough 4) over four (time,id) keys) with the expected (delivered, acked, re-broadcast) computed by the TLA+ '
         'definition (PartialMatch over the finite language = regexp.MatchString); each vector is delivered through NotifyMsg to a real '
         'node with the chosen tags and the application channel (marker technique), the ack packet on the transport and the broadcast '
         'queue are compared with the definition by TLC on every step; the open model (any interleaving of deliveries, (lt,id) in '
@@ -23,7 +23,7 @@ CLAIMS = {
         _TECH, '5 C08'),
     'C33': (
         'model_checking',
-        'TLC enumerates every boundary vector of spec/Limits.tla (UserEvent with name+payload or encoded size at limit-2..limit+2 for '
+        'TLC enumerates every boundary vector of spec/Limits.tla (UserEvent with name+payload or encoded size at limit-2..limit+2 (thorough -4..+4) for '
         'configured limits below/at/above the 9 KB hard cap incl. limits raised after Create; Query at QuerySizeLimit-2..+2; '
         'Query.Respond with the encoded response or its relay wrapper at QueryResponseSizeLimit-2..+2, relay factor 0/1, with/without '
         'a relay-capable peer); the harness lands the real encoder exactly on each size (mirror encoders cross-checked against every '
@@ -35,19 +35,19 @@ CLAIMS = {
         _TECH, '5 C33'),
     'C35': (
         'model_checking',
-        'TLC enumerates every member table of spec/Relay.tla (up to 4 other members x status alive/leaving/left/failed x memberlist '
+        'TLC enumerates every member table of spec/Relay.tla (up to 3 (thorough 4) other members x status alive/leaving/left/failed x memberlist '
         'protocol max 4/5, as multisets) x relay factor 0..4; a real node is given exactly that table (NotifyJoin/NotifyLeave/leave '
         'intents, verified through Members()), receives queries with that relay factor and the ack flag and the application responds; '
         'the packets of each of 20 replies per vector (ack path and Respond path) are classified and TLC checks: exactly one direct '
         'reply to the origin, at most k relays, pairwise distinct, only to alive protocol>=5 members, never itself, none when fewer '
         'than k+1 members are known. kRandomMembers is additionally called through an accessor with lists of up to 3 entries over 3 '
-        'names with repeats and the node itself (all 820 lists x k 0..3, 20 calls each).',
+        'names with repeats and the node itself (quick: all 91 lists up to length 2, thorough: all 820 up to length 3; x k 0..3, 20 calls each).',
         'Trusts TLC, the packet classifier (destination by transport address), and that 20 seeded repetitions expose the random '
         'choice (a wrong choice that needs a rarer draw can be missed). The model\'s outcome set is checked exhaustively by TLC.',
         _TECH, '5 C35'),
     'C36': (
         'model_checking',
-        'TLC enumerates every multiset of up to 5 replies over 9 kinds (matching address in 4/16-byte form, other address, other port, '
+        'TLC enumerates every multiset of up to 4 (thorough 5) replies over 9 kinds (matching address in 4/16-byte form, other address, other port, '
         'no member, wrong type byte, undecodable body, type byte only, empty payload) of spec/ConflictVote.tla with the expected verdict '
         'computed by the definition (shutdown iff matching < floor(valid/2)+1); each vector is run on a real node: NotifyConflict through '
         'serf\'s conflict delegate, the replies injected (shuffled by seed) as query responses to the real _serf_conflict query before it '
